@@ -70,7 +70,9 @@ def run_batched(cases, judge, label=None, key=None, sig=None, strict_batch=False
                                               "detail": "site %d is right in a file of its own but not in this file with %d sites: %s\n--- site ---\n%s" % (
                                                   i, len(cases), bv[1][:600], repr(c)[:300])})
         if v is not None:
-            viol = {"case": c, "what": v[0], "detail": v[1]}
+            # (judged alone in this process, after the batch: state the batch left behind in the library may still be at work;
+            #  should a fresh process not reproduce the single site, the engine replays the whole batch instead)
+            viol = {"case": c, "what": v[0], "detail": v[1], "context_case": {"batch": cases, "index": cases.index(c)}}
             if sig:
                 viol["sig"] = sig(c, v)
             out["violations"].append(viol)
